@@ -12,7 +12,10 @@ class StackFrame:
         self.return_addr = None
 
     def get_variable(self, identifier):
-        for place in (self.constants, self.vars, self.params, self.globals):
+        # Parameters become visible only through vars, once the routine has
+        # been entered. While the arguments of a call are being evaluated,
+        # the callee's partly-built parameter list must not hide anything.
+        for place in (self.constants, self.vars, self.globals):
             if identifier in place:
                 return place[identifier]
         return None
